@@ -263,6 +263,24 @@ def run_solve_t(Model, case):
               errors=case['errors'], catch_first_error=case['cfe'])
     if case.get('offset'):
         kw['offset'] = case['offset']
+    style = case.get('arg_style') or 'plain'
+    if style == 'omit-defaults':
+        # leaving an option out means its documented default
+        for k, dflt in (('min_iter', 0), ('failures', 'raise'), ('errors', 'raise'), ('catch_first_error', True), ('max_iter', 100), ('tol', 1e-10)):
+            if type(kw[k]) is type(dflt) and kw[k] == dflt:
+                del kw[k]
+    elif style == 'explicit-defaults':
+        kw.setdefault('offset', 0)
+    elif style == 'numpy-ints':
+        # integers of another integer type (what arithmetic on NumPy arrays hands back)
+        for k in ('min_iter', 'max_iter', 'offset'):
+            if k in kw:
+                kw[k] = np.int64(kw[k]) if k != 'offset' else np.int32(kw[k])
+    elif style == 'bools':
+        # True / False are the integers 1 / 0
+        for k in ('min_iter', 'max_iter'):
+            if kw[k] in (0, 1):
+                kw[k] = bool(kw[k])
     obs = {}
     with warnings.catch_warnings():
         # the caller's own warnings set-up (process-wide filters such as -W error) is none of the solver's business: the outcome is the same
